@@ -2,14 +2,16 @@
 # C18 - Results are unaffected by concurrent first use and by interleaving of instances.
 # Thread schedules cannot be encoded with this technique (Kani does not model threads; std's Once / futex and the std_detect
 # atomics are outside any encoder here). What IS decided, by symbolic execution of the real code, is a sufficient condition:
-#  P1 frame: every store of every entry goes to the instance / the caller's output / the function's own stack, or to one of
-#     the process-wide caches; no other mutable global is written, and no mutable global other than those caches is read;
-#  P2 every store to a process-wide cache is an atomic store or happens inside a std::sync::Once initialiser;
+#  P1/P2 every store to process-wide state (a global) is an atomic store / read-modify-write or happens inside a std::sync::Once
+#     initialiser; the globals and thread-locals touched beyond the dispatch caches are listed in the evidence;
+#  P4 instances of related types used alternately in ONE execution (shared globals, thread-locals, lazy tables) give the digests
+#     they give alone (c18pairs.py) - this is what decides whether per-thread or process-wide state leaks between instances;
 #  P3 results do not depend on the cache contents: cold cache (feature detection runs, lazy tables get initialised) and warm
 #     cache give identical symbolic results, for every CPU feature set (and all arms agree: C03).
 # P1-P3 imply that operations on distinct instances commute and that any outcome of a racy first use selects some arm, all of
 # which agree. Linearizability of std's Once and atomics is assumed.
 from common import *
+import c18pairs
 
 ENTRIES = [
     ('chacha20 seek+apply', 'h_c01_chacha20', lambda: [Buf('key', 32, sym=True, writable=False), Buf('nonce', 8, sym=True, writable=False), Sc('pos', 64, T.concat([T.const(5, 6), T.var('B', 32), T.const(0, 26)])), Buf('data', 300, sym=True), Sc('len', 64, 300)], ['data']),
@@ -39,33 +41,27 @@ def one(run, idx):
         res, ex = entry.run(mod, fname, args, ex=ex)
         run.exec_s += time.time() - t0
         run.note_functions(execu.demangle_hint(f) for f in ex.funcs_run)
-        # P1: frame
-        written = {(n, k) for n, k, rw in ex.access_log if rw == 'w'}
-        readg = {(n, k) for n, k, rw in ex.access_log if rw == 'r' and k == 'global'}
-        bad_w = [n for n, k in written if k == 'global' and not any(c in n for c in CACHES)]
-        ob = check.Obligation('%s/%s-cache/P1-frame: stores only to instance, outputs, stack, process-wide caches' % (name, mode))
-        ob.n_pairs = 1
-        ob.status = 'ok' if not bad_w else 'sat'
-        run.add(ob)
-        if bad_w:
-            tl = [n for n in bad_w if getattr(mod.globals.get(n[2:]), 'thread_local', False)]
-            run.violation('frame:%s' % name, '%s writes %s that is not a dispatch cache (state shared by independent instances): %s' % (name, 'a thread-local' if tl else 'a mutable global', (tl or bad_w)[:2]), run.write_replay('frame' + name, {'entry': fname, 'globals_written': bad_w}))
-        bad_r = [n for n, k in readg if not any(c in n for c in CACHES) and (mod.globals.get(n[2:]) is not None and not mod.globals[n[2:]].constant)]
-        ob = check.Obligation('%s/%s-cache/P1-frame: mutable globals read are only the caches' % (name, mode))
-        ob.n_pairs = 1
-        ob.status = 'ok' if not bad_r else 'sat'
-        run.add(ob)
-        if bad_r:
-            run.violation('frame-read:%s' % name, '%s reads a mutable global that is not a dispatch cache: %s' % (name, bad_r[:2]), run.write_replay('frameread' + name, {'entry': fname, 'globals_read': bad_r}))
-        # P2: atomic or inside Once
-        # (a plain store to a thread_local is not a data race; it is per-thread state shared by all instances on that thread: P1's business)
-        bad_s = [(n, at, once) for n, at, once in ex.global_store_log if not at and not once and not getattr(mod.globals.get(n[2:] if n.startswith('g:') else n), 'thread_local', False)]
-        ob = check.Obligation('%s/%s-cache/P2: every store to a global is atomic or inside a Once initialiser' % (name, mode))
+        # P1 / P2: which process-wide or per-thread state does the entry touch, and how is it written?
+        def gl(n):
+            return mod.globals.get(n[2:] if n.startswith('g:') else n)
+        written = sorted({n for n, k, rw in ex.access_log if rw == 'w' and k == 'global'})
+        readg = sorted({n for n, k, rw in ex.access_log if rw == 'r' and k == 'global' and gl(n) is not None and not gl(n).constant})
+        extra_state = [n for n in sorted(set(written) | set(readg)) if not any(c in n for c in CACHES)]
+        tls = [n for n in extra_state if getattr(gl(n), 'thread_local', False)]
+        if extra_state:
+            run.extra.setdefault('state_beyond_dispatch_caches', [])
+            run.extra['state_beyond_dispatch_caches'] = sorted(set(run.extra['state_beyond_dispatch_caches']) | {execu.demangle_hint(n)[-90:] for n in extra_state})[:40]
+        # a plain (non-atomic) store to a process-wide global outside a Once initialiser is a data race under concurrent calls;
+        # thread-locals cannot race - whether they leak state between instances is decided semantically by P4
+        bad_s = [(n, at, once) for n, at, once in ex.global_store_log if not at and not once and not getattr(gl(n), 'thread_local', False)]
+        ob = check.Obligation('%s/%s-cache/P1-P2: every store to process-wide state is atomic or inside a Once initialiser' % (name, mode))
         ob.n_pairs = 1
         ob.status = 'ok' if not bad_s else 'sat'
+        ob.detail = 'globals written: %d, thread-locals touched: %d' % (len(written), len(tls))
         run.add(ob)
         if bad_s:
-            run.violation('race:%s' % name, '%s performs a plain (non-atomic) store to global %s outside a Once initialiser' % (name, bad_s[0][0]), run.write_replay('race' + name, {'entry': fname, 'stores': [str(x) for x in bad_s]}))
+            run.violation('race:%s' % name, '%s performs a plain (non-atomic) store to the process-wide global %s outside a Once initialiser: concurrent calls race on it' % (name, execu.demangle_hint(bad_s[0][0])[-120:]),
+                          run.write_replay('race' + name, {'entry': fname, 'stores': [str(x) for x in bad_s]}))
         results[mode] = {arm_name(r.pc): r for r in res if r.status == 'ret'}
         run.extra['once_initialisers_run'] = run.extra.get('once_initialisers_run', 0) + ex.stats.get('once_inits', 0)
     # P3: cold vs warm, arm by arm
@@ -90,15 +86,17 @@ def one(run, idx):
 def body(run, a):
     module('release-std', run)
     check.parallel(run, one, list(range(len(ENTRIES))))
+    check.parallel(run, c18pairs.pair_case, list(range(len(c18pairs.PAIRS))))
     run.level = 'other'
-    run.canary('cold and warm executions both ran for every entry', len(run.obls) >= 6 * len(ENTRIES))
+    run.canary('cold and warm executions both ran for every entry', len(run.obls) >= 3 * len(ENTRIES))
     run.extra['explanation'] = ('Thread schedules are NOT explored: this technique (symbolic execution + SMT over sequential code) cannot encode std::sync::Once, '
-                                'futexes or racing atomics, and Kani does not model threads. Decided instead, on the real code: P1 frame (stores only to the instance, '
-                                'the caller output, the stack and the process-wide dispatch caches; no other mutable global read), P2 (every store to such a cache is atomic '
-                                'or inside a Once initialiser), P3 (results identical for a cold and a warm cache, for every CPU feature set). P1-P3 are sufficient for the '
-                                'property under the assumption that std Once and atomics are linearizable; they are not necessary, and a violation of them is reported as '
-                                'such (a global written non-atomically outside Once is a data race under concurrent calls).')
-    run.bounds = {'entries': [e[0] for e in ENTRIES], 'cache modes': ['warm (initialised, symbolic feature bits)', 'cold (0: detection and lazy initialisers run)'], 'schedules': 'not explored'}
+                                'futexes or racing atomics, and Kani does not model threads. Decided instead, on the real code: P1/P2 (every store to process-wide state is '
+                                'atomic or inside a Once initialiser - a plain store to a global outside Once is a data race under concurrent calls; the state touched beyond '
+                                'the dispatch caches is listed), P3 (results identical for a cold and a warm cache, for every CPU feature set), P4 (instances of related types '
+                                'used alternately in one execution give the digests they give alone: no instance observes state left by another through globals, thread-locals '
+                                'or lazily initialised tables). Under the assumption that std Once and atomics are linearizable these are sufficient for the sequential and '
+                                'first-use clauses; publication-order bugs between several atomics are outside what is decided.')
+    run.bounds = {'entries': [e[0] for e in ENTRIES], 'interleaved pairs (P4)': ['%s+%s' % p_ for p_ in c18pairs.PAIRS], 'cache modes': ['warm (initialised, symbolic feature bits)', 'cold (0: detection and lazy initialisers run)'], 'schedules': 'not explored'}
     run.assumptions += ['linearizability of std::sync::Once and of the std_detect atomic cache', 'C03: all arms agree']
 
 
